@@ -73,6 +73,7 @@ def _call(order, length, seed):
     # (1,1)-shaped one-bit result cannot be concatenated with the next chunk
     shape_tag = "" if data.ndim == 1 else f"|shape={list(data.shape)}"
     _RAW_STATE["last"] = st
+    _RAW_STATE["out"] = out
     return [int(b) for b in data.ravel()], int(st), warned, type(out).__name__, str(data.dtype) + shape_tag
 
 
@@ -132,10 +133,12 @@ def run_impl(case):
         if case.get("split"):
             seed = case["seed"]
             acc, s = [], seed
+            held = []              # the returned sequence objects themselves, read only after ALL calls were made
             first = True
             for part in case["split"]:
                 with time_limit(120):
                     b, s_int, w, _, _ = _call(case["order"], part, s)
+                held.append(_RAW_STATE["out"])
                 # resume with the state object exactly as PRBS returned it (a numpy integer), every other time as a Python int
                 s = _RAW_STATE["last"] if (len(acc) + part) % 2 == 0 else s_int
                 if not first and w:
@@ -144,6 +147,7 @@ def run_impl(case):
                 acc += b
             res["split_bits"] = "".join(map(str, acc))
             res["split_state"] = int(s)
+            res["split_bits_held"] = "".join(str(int(v)) for o in held for v in np.asarray(o.data).ravel())
     except Timeout as e:
         res.update(status="timeout", detail=str(e))
     except Exception as e:  # noqa
@@ -210,6 +214,9 @@ def oracle(case, res):
     if "split_bits" in res:
         if res["split_bits"] != res["bits"] or res["split_state"] != res["state"]:
             v.append(("C04:resume", f"PRBS({order},{L},{seed}) in calls {case['split']} differs from one call"))
+        if res.get("split_bits_held") is not None and res["split_bits_held"] != res["split_bits"]:
+            v.append(("C04:resume-chunks-overwritten", f"PRBS({order},{L},{seed}) in calls {case['split']}: the chunks returned by earlier calls, "
+                                                       "read after the later calls, no longer hold the bits they held when returned"))
         if res.get("resume_warned"):
             v.append(("C04:resume-warn", "a returned state was rejected as seed"))
     if case["kind"] == "cycle":
